@@ -32,3 +32,17 @@ fn h_slice_range_from() {
     let r = SliceRange::from(..=b);
     assert!(r.start == 0 && r.len == Some(b + 1));
 }
+
+#[cfg(vx_replay)]
+#[path = "/verif/units/message/w/cut_boundary.rs"]
+mod w_cut_boundary;
+
+//# id=witness.cut_matches_the_vector_model props=C07,C10 kind=witness pair=message.Message.cut.safety,message.Message.cut.returns_prefix,message.Message.cut.keeps_suffix
+// cut at every position of multi-chunk messages behaves like splitting a plain vector
+#[cfg(vx_replay)]
+#[test]
+fn h_w_cut_boundary() {
+    w_cut_boundary::cut_header_off_exactly();
+    w_cut_boundary::cut_zero_is_a_no_op();
+    w_cut_boundary::cut_every_position_matches_vec_model();
+}
